@@ -11,6 +11,7 @@ NOTE = ("Trusted base: CrossHair's models of str/int/containers, z3, the stubs l
 
 # property -> (claimed?, level text, design ref)
 CLAIMS = {
+    "C01": ("Per corpus tree, for every user state inside the bounds (incl. values on hidden / promptless options, malformed and out-of-range numbers): value and visibility of every option computed by the real evaluator equal an executable specification written from language.rst / defaults.rst on the tree's own AST (independent of both parsers); and a user value on an option whose prompt is hidden changes no value and no output.", "DESIGN.md 4/C01"),
     "C02": ("Per corpus tree, for every reachable user state inside the bounds (incl. a fully symbolic string value per string option): write_config -> fresh load_config reproduces every value and assignment line, raises no default-mismatch / multiple-assignment / unknown-symbol diagnostics, and the second write is byte-identical (no file operation). Also second generation (save, reload into the used instance, one symbolic edit) and the deprecated block.", "DESIGN.md 4/C02"),
     "C03": ("Inductive step for the evaluation caches: for each corpus tree, for every pre-state inside the bounds with all caches filled, and every single operation (set/unset/reset/reset-menu, symbolic value), values read incrementally == values after discarding all caches == values of a fresh instance given the same user state. Solver-exhausted per job.", "DESIGN.md 4/C03"),
     "C04": ("Per corpus program: both parsers accept/reject alike and build the same menu tree (concrete comparison), and for every user state inside the bounds the two instances agree on values, visibility, sdkconfig, header and JSON (solver-decided). The quantifier over programs is a finite corpus.", "DESIGN.md 4/C04"),
